@@ -426,8 +426,10 @@ def eval_case(case):
                     else:
                         o[name] = o[name][:n - 1]
                 return o
-            if r1["step_i"] != r2["step_i"]:
-                o1.pop("disconnect"), o2.pop("disconnect")   # back-filled at later arrivals
+            if r1["step_i"] != r2["step_i"] or r1.get("aborted") or r2.get("aborted"):
+                # `disconnect` is back-filled into EARLIER rows when an arrival is processed; a run that ends early, or
+                # whose failing step processed only part of its events, has not back-filled the same rows
+                o1.pop("disconnect"), o2.pop("disconnect")
             d = first_diff(cut(o1), cut(o2))
             if d:
                 viol.append(("isolation", "C16:added_connector_changes_existing:%s" % strat, d[:300]))
